@@ -53,6 +53,68 @@ pub fn run(rep: &mut Rep) {
     al.writer_stall = false;
     rep.note("the same with Receive Maximum 1 and Maximum Packet Size 64 announced in CONNACK and 300-byte publishes in the alphabet (before and after the drop)");
     explore_world(rep, "exhlim", depth, &move || World::boot(WorldCfg { seed, receive_max: Some(1), max_packet: Some(64), ..Default::default() }), &al);
+    // requests caught in the middle of being written (writer not accepting bytes) whose futures are not polled until
+    // after the drop: whatever the context had told them before must not read as success for an unwritten packet
+    let mut ah = a.clone();
+    ah.kinds = vec![Kind::Pub0, Kind::Pub1, Kind::Ping, Kind::Disc];
+    ah.after_drop_kinds = vec![Kind::Pub0];
+    ah.holds_any = true;
+    ah.inbound = vec![];
+    ah.max_inbound = 0;
+    ah.streams = false;
+    ah.stream_holds = false;
+    ah.create_unpolled = false;
+    rep.note("futures held back: the same crash-point enumeration over {pub0, pub1, ping, disconnect} with any submitted future held unpolled (Hold / Release) while the writer is stalled or not: a future first polled after the drop reports ContextExited unless its packet had been written (and acknowledged where an acknowledgement is due)");
+    explore_world(rep, "exhhold", depth, &move || World::boot(WorldCfg { seed, ..Default::default() }), &ah);
+    // the context is dropped while it is in the middle of writing a request (back-pressure after 0-5 bytes), and the
+    // request's future is polled only afterwards
+    rep.note("dropped in mid-write: every operation kind picked up by run() while the transport accepts only the first 0-5 bytes of its packet, the operation's future held unpolled, drop(context), then the future is polled: ContextExited (its packet never made it onto the connection)");
+    let mut midx = 45_000_000u64;
+    for kind in [Kind::Pub0, Kind::Pub1, Kind::Pub2, Kind::Sub, Kind::Unsub, Kind::Ping, Kind::Disc] {
+        for accept in 0..6usize {
+            for held in [true, false] {
+                let id = format!("midwrite:{}:{accept}:{}", kind.name(), held as u8);
+                midx += 1;
+                if !rep.take(midx, &id) {
+                    continue;
+                }
+                let mut w = World::boot(WorldCfg { seed: rep.seed, ..Default::default() });
+                let at = w.sim.written_len() + accept.min(match kind {
+                    Kind::Ping => 1,
+                    Kind::Disc => 3,
+                    _ => 5,
+                });
+                w.sim.writer.0.borrow_mut().stall_at = Some(at);
+                w.sim.note(|| format!("transport: writer accepts bytes up to offset {at}, then exerts back-pressure"));
+                w.sim.hold_ctx = true;
+                let op = w.start(0, kind);
+                w.sim.ops[op].held = held;
+                w.sim.hold_ctx = false;
+                w.sim.settle();
+                w.drop_ctx();
+                w.sim.settle();
+                w.sim.ops[op].held = false;
+                std::task::Wake::wake_by_ref(&w.sim.ops[op].task.w);
+                w.settle_check();
+                // nobody may report success for a packet that is not on the connection
+                if let Some(o) = &w.sim.ops[op].out {
+                    if o.is_ok() {
+                        let k = kind.name();
+                        let o = o.brief();
+                        w.viol(&["C14"], format!("C14/success-for-unwritten-request-after-context-drop/{k}"), format!("op{op} ({k}): the context was dropped while only {accept} bytes of its packet had been accepted by the transport, yet the operation reports {o}"));
+                    }
+                }
+                finish(&mut w);
+                rep.add("evaluations", 1);
+                rep.add("dropped_in_mid_write_cases", 1);
+                rep.distinct(&("midwrite", kind, accept, held));
+                if super::harvest(rep, &mut w, &id) == 0 {
+                    rep.sample(|| format!("{id}: -> {:?}", w.sim.ops[op].out.as_ref().map(|o| o.brief())));
+                }
+                super::add_counters(rep, &w);
+            }
+        }
+    }
     // many operations and streams pending at the drop
     let ns: Vec<usize> = if rep.quick() { vec![9, 17, 33, 65, 129, 300] } else { vec![7, 8, 9, 15, 16, 17, 31, 32, 33, 63, 64, 65, 127, 128, 129, 255, 256, 257, 1000] };
     rep.note(&format!("wide: {:?} operations of every kind pending in every phase (unpolled, queued behind a stalled writer, awaiting their acknowledgement, between the QoS 2 phases, acknowledged but unpolled) and a sixth as many streams with 0 / 3 / 40 / 63 / 64 / 65 / 130 / 300 buffered messages when the context is dropped", ns));
